@@ -6,6 +6,11 @@ spec["literals"] = [ [file, function, anchor-regex, gallina-name], ... ]
 spec["present"]  = [ [file, function, anchor-regex, gallina-name], ... ]
   emits  Definition <name> : bool := true  when the regex matches exactly once, else the translator fails (so a
   proof depending on the shape of that statement breaks when the statement is edited away).
+spec["call_args"] = [ [file, function, anchor-regex with two groups, gallina-name, {c-text: int}], ... ]
+  the two groups are mapped through the dictionary (whitespace removed); emits <name>_L and <name>_R : Z.
+spec["via"]       = [ [file, function, assign-regex (groups: variable, string literal), use-regex (groups: key, variable),
+                       {key: gallina-name}], ... ]
+  which string literal reaches which use through a local variable: emits <gallina-name> : list Z for every key.
 """
 import re
 
@@ -27,4 +32,34 @@ def emit(repo, spec, H):
             raise ValueError("%s:%s: statement %r found %d times (need exactly 1)" % (f, fn, anchor, len(ms)))
         out.append("(* %s: %s: %s *)" % (f, fn, " ".join(ms[0].group(0).split()).replace("*)", "* )").replace("(*", "( *")))
         out.append("Definition %s : bool := true." % name)
+    for f, fn, anchor, name, mapping in spec.get("call_args", []):
+        body = H.func_body(H.raw(repo, f), fn)      # raw text: macro calls such as NC_compare_string(..) are still visible
+        ms = list(re.finditer(anchor, body, flags=re.S))
+        if len(ms) != 1:
+            raise ValueError("%s:%s: anchor %r matched %d times (need exactly 1)" % (f, fn, anchor, len(ms)))
+        vals = []
+        for g in (1, 2):
+            t = "".join(ms[0].group(g).split())
+            if t not in mapping:
+                raise ValueError("%s:%s: unexpected argument %r" % (f, fn, t))
+            vals.append(mapping[t])
+        out.append("(* %s: %s: %s *)" % (f, fn, " ".join(ms[0].group(0).split()).replace("*)", "* )").replace("(*", "( *")))
+        out.append("Definition %s_L : Z := %d." % (name, vals[0]))
+        out.append("Definition %s_R : Z := %d." % (name, vals[1]))
+    for f, fn, assign, use, keys in spec.get("via", []):
+        body = H.func_body(H.src(repo, f), fn)
+        var2lit = {}
+        for m in re.finditer(assign, body, flags=re.S):
+            var2lit[m.group(1)] = m.group(2)
+        seen = {}
+        for m in re.finditer(use, body, flags=re.S):
+            if m.group(1) in seen:
+                raise ValueError("%s:%s: key %s used twice" % (f, fn, m.group(1)))
+            seen[m.group(1)] = m.group(2)
+        for key, name in keys.items():
+            if key not in seen or seen[key] not in var2lit:
+                raise ValueError("%s:%s: cannot trace %s to a string literal" % (f, fn, key))
+            lit = var2lit[seen[key]]
+            out.append("(* %s: %s: %s <- %s <- %s *)" % (f, fn, key, seen[key], lit))
+            out.append("Definition %s : list Z := [%s]." % (name, "; ".join(map(str, H.c_string_bytes(lit)))))
     return out
